@@ -3,5 +3,7 @@
 package kcp
 
 // No-op stubs of the buffer-pool sanitizer call-outs (see verif_pool_on.go); inlined away.
+const verifPoolHooked = false
+
 func verifPoolGet([]byte) {}
 func verifPoolPut([]byte) {}
